@@ -22,7 +22,8 @@ RULE = ("cases: initialiser x shape (rank>=2 for the fan-based ones, >=1 otherwi
         "non-default mode/nonlinearity/slope), n >= 4096; distinct by hash of the case"
         " Also: rank up to 6, memory layouts, ambient no_grad/retain_grads, nn.Parameter tensors, fill values not representable in float32."
         " Round 5: NumPy-float slopes; an initialiser raising on a documented argument is a violation."
-        " Round 6: conv layers constructed with stride / dilation / padding options (range checked from both sides).")
+        " Round 6: conv layers constructed with stride / dilation / padding options (range checked from both sides)."
+        " Round 7: option strings built at run time (equal, not identical), read-only and broadcast buffers.")
 ASSUMPTIONS = ["6-sigma / 1e-9 statistical bounds with the library seeded by a Hypothesis-drawn integer",
                "gain table and fan computation transcribed from the docstrings (PyTorch conventions)"]
 
